@@ -522,6 +522,50 @@ def rule_mv(ctx):
                    'silently' % (attr, A.short(p[-1].ast, 50)),
                    path=[repr(x) for x in p if x.ast is not None] if p else None)
     rep.floor('memo stores in keys()', n, 4)
+    # ... and the other half: when the memo is empty, every path to `return self.<memo>` has filled it (else keys() is None
+    # for that shape of input - e.g. the empty selection - and every key lookup behind it fails)
+    for cls in K.family(ctx):
+        mem = cls.own('keys')
+        if mem is None or not mem.is_function:
+            continue
+        fn = mem.node
+        rets = [r for r in flow.returns_of(fn) if r.value is not None and A.is_self_attr(r.value)]
+        if not rets:
+            continue
+        attr = rets[0].value.attr
+        g = CFG(fn)
+        tests = []
+        for nd in g.nodes:
+            if nd.kind == 'test' and nd.ast is not None:
+                t, neg = A.strip_not(nd.ast.test if hasattr(nd.ast, 'test') else nd.ast)
+                if isinstance(t, ast.Compare) and len(t.ops) == 1 and A.is_self_attr(t.left, attr) \
+                        and A.is_const(t.comparators[0], None) and isinstance(t.ops[0], (ast.Is, ast.IsNot)):
+                    empty_edge = 'true' if (isinstance(t.ops[0], ast.Is) != neg) else 'false'
+                    tests.append((nd, empty_edge))
+        if not tests:
+            continue
+
+        def is_store(nd):
+            return nd.kind == 'stmt' and isinstance(nd.ast, ast.Assign) and any(A.is_self_attr(t, attr) for t in nd.ast.targets)
+
+        def is_ret(nd):
+            return nd.kind == 'stmt' and isinstance(nd.ast, ast.Return) and nd.ast.value is not None \
+                and A.is_self_attr(nd.ast.value, attr)
+        bad = None
+        for nd, edge in tests:
+            for (y, k) in g.succ[nd.id]:
+                if k != edge:
+                    continue
+                if is_store(g.nodes[y]):
+                    continue
+                if is_ret(g.nodes[y]):
+                    bad = [nd, g.nodes[y]]
+                    continue
+                p_ = g.path_avoiding(y, is_ret, is_store, edge_ok=normal)
+                bad = bad or p_
+        rep.ob('MV', K.key(cls, 'keys', 'memo-filled-on-every-path-to-the-return(%s)' % attr), bad is None, fn,
+               '' if bad is None else 'with an empty memo a path reaches `return self.%s` without storing it: keys() returns '
+               'None there' % attr, path=[repr(x) for x in bad if x.ast is not None] if bad else None)
 
 
 def rule_kw(ctx):
@@ -618,7 +662,15 @@ def rule_ks(ctx):
     rep.floor('selecting stages with a string lookup', n, 1)
 
 
+def rule_sg(ctx):
+    """iter(ds) calls __iter__() without arguments: values are the default, pairs only on request"""
+    n = K.sibling_default(ctx, 'SG', '__iter__', 'with_key', False,
+                          'plain iteration of this stage would yield (key, example) pairs')
+    ctx.report.floor('__iter__ signatures with with_key', n, 10)
+
+
 def run(ctx):
+    rule_sg(ctx)
     rule_mv(ctx)
     rule_kw(ctx)
     rule_ks(ctx)
